@@ -25,6 +25,7 @@ mod c17;
 mod c12;
 mod c04;
 mod gridalg;
+mod flexalg;
 
 fn main() {
     let args: Vec<String> = std::env::args().collect();
@@ -57,6 +58,7 @@ fn main() {
         "c12" => c12::main(rest),
         "c04" => c04::main(rest),
         "gridalg" => gridalg::main(rest),
+        "flexalg" => flexalg::main(rest),
         other => {
             eprintln!("unknown property {other}");
             std::process::exit(2);
